@@ -31,6 +31,7 @@ type quadraticHashTable[K, V any] struct {
 	entries []*hashTableEntry[K, V]
 	m       int     // The total number of entries in the hash table
 	n       int     // The number of key-values stored in the hash table
+	u       int     // The number of used entries, including the soft-deleted ones
 	minLF   float32 // The minimum load factor before resizing (shrinking) the hash table
 	maxLF   float32 // The maximum load factor before resizing (expanding) the hash table
 
@@ -65,6 +66,7 @@ func NewQuadraticHashTable[K, V any](hashKey HashFunc[K], eqKey EqualFunc[K], eq
 		entries: make([]*hashTableEntry[K, V], opts.InitialCap),
 		m:       opts.InitialCap,
 		n:       0,
+		u:       0,
 		minLF:   opts.MinLoadFactor,
 		maxLF:   opts.MaxLoadFactor,
 		hashKey: hashKey,
@@ -143,6 +145,7 @@ func (ht *quadraticHashTable[K, V]) resize(m int) {
 	ht.entries = newHT.entries
 	ht.m = newHT.m
 	ht.n = newHT.n
+	ht.u = newHT.u
 }
 
 // Size returns the number of key-values in the hash table.
@@ -157,8 +160,15 @@ func (ht *quadraticHashTable[K, V]) IsEmpty() bool {
 
 // Put adds a new key-value to the hash table.
 func (ht *quadraticHashTable[K, V]) Put(key K, val V) {
-	if ht.loadFactor() >= ht.maxLF {
-		ht.resize(2 * ht.m)
+	// Soft-deleted entries lengthen the probe sequences as much as live ones do,
+	// so the table is re-hashed before the used entries would exceed the maximum load factor.
+	// If most of the used entries are soft-deleted, re-hashing into the same size is enough to get rid of them.
+	if float32(ht.u+1)/float32(ht.m) > ht.maxLF {
+		if 2*ht.n >= ht.u {
+			ht.resize(2 * ht.m)
+		} else {
+			ht.resize(ht.m)
+		}
 	}
 
 	var i int
@@ -166,7 +176,10 @@ func (ht *quadraticHashTable[K, V]) Put(key K, val V) {
 	for i = next(); ht.entries[i] != nil; i = next() {
 		if ht.eqKey(ht.entries[i].key, key) {
 			ht.entries[i].val = val
-			ht.entries[i].deleted = false
+			if ht.entries[i].deleted {
+				ht.entries[i].deleted = false
+				ht.n++
+			}
 			return
 		}
 	}
@@ -178,6 +191,7 @@ func (ht *quadraticHashTable[K, V]) Put(key K, val V) {
 	}
 
 	ht.n++
+	ht.u++
 }
 
 // Get returns the value of a given key in the hash table.
@@ -224,6 +238,7 @@ func (ht *quadraticHashTable[K, V]) Delete(key K) (V, bool) {
 func (ht *quadraticHashTable[K, V]) DeleteAll() {
 	ht.entries = make([]*hashTableEntry[K, V], ht.m)
 	ht.n = 0
+	ht.u = 0
 }
 
 // String returns a string representation of the hash table.
